@@ -668,11 +668,13 @@ func (sw *vfStoreWorld) project(devs, admins []string) map[string]any {
 	return map[string]any{"devs": pd, "admins": pa}
 }
 
-func (sw *vfStoreWorld) appendRaw(ctx context.Context, env []byte) cid.Cid {
+func (sw *vfStoreWorld) appendRaw(ctx context.Context, env []byte) (cid.Cid, error) {
 	op := operation.NewOperation(nil, "ADD", env)
 	e, err := sw.ms.AddOperation(ctx, op, nil)
-	vfMust2(err, "AddOperation")
-	return e.GetHash()
+	if err != nil {
+		return cid.Undef, err
+	}
+	return e.GetHash(), nil
 }
 
 type vfEmitted struct {
@@ -739,12 +741,25 @@ func vfMetaStoreScript(ctx context.Context, sw *vfStoreWorld, sc vfScript) []map
 		e := b.envelope(tm)
 		pre, _, _ := vfSnapshot(sw.ms)
 		lenPre := sw.ms.OpLog().Len()
-		h := sw.appendRaw(ctx, e.bytes)
+		h, aerr := sw.appendRaw(ctx, e.bytes)
 		// barrier: an honest event of the store owner through the regular API
 		tag := make([]byte, 12)
 		b.rnd.Read(tag)
-		sop, err := sw.ms.SendAppMetadata(ctx, tag)
-		vfMust2(err, "sentinel")
+		var sop operation.Operation
+		var err error
+		if aerr == nil {
+			sop, err = sw.ms.SendAppMetadata(ctx, tag)
+		}
+		if aerr != nil || err != nil {
+			// the store refuses a write (the entry itself, or an honest event after it): an observation for the
+			// monitor - an entry that is to be dropped must not stop the store from working
+			post, devs, admins := vfSnapshot(sw.ms)
+			out = append(out, map[string]any{"ev": "append", "listed": false, "i": i, "store": sw.name, "tm": st.A, "helper": e.helper,
+				"emr": 0, "gme": 0, "tyok": false, "sameok": false, "stray": 0, "barrier": false,
+				"pre": pre, "post": post, "grew": sw.ms.OpLog().Len() - lenPre, "st": sw.project(devs, admins),
+				"apperr": aerr != nil, "senterr": err != nil, "errtext": fmt.Sprint(aerr, err)})
+			break
+		}
 		sh := sop.GetEntry().GetHash()
 		em := sw.collect(h, sh, e, tm.Ty)
 		post, devs, admins := vfSnapshot(sw.ms)
